@@ -246,3 +246,73 @@ def corr_sharing(ctx):
         ctx.case(("I6s", repr(gs)), len(gs) > 1)
         if py != le:
             ctx.corr_break("I6s.init_within_block", {"gs": gs}, py, le)
+
+
+# ---------------------------------------------------------------- I7d: Gen.decode
+
+def py_decode(blk, solution):
+    from sweetpea._internal.sampling_strategy.base import Gen as SPGen
+    try:
+        dec = SPGen.decode(blk, list(solution))
+    except Exception as e:  # noqa: BLE001
+        return {"err": type(e).__name__}
+    out = []
+    for f in blk.act_design:
+        if f.name not in dec:
+            out.append(None)
+            continue
+        out.append([None if x == "" else str(x) for x in dec[f.name]])
+    return {"ok": out}
+
+
+def _names(blk, le):
+    """level indices of the model's answer -> level names (a desugared weighted factor has equal names)"""
+    if "ok" not in le:
+        return le
+    out = []
+    for f, row in zip(blk.act_design, le["ok"]):
+        names = [str(l.name) for l in f.levels]
+        out.append(None if row is None else [None if x is None else names[x] for x in row])
+    return {"ok": out}
+
+
+def corr_decode(ctx):
+    """Gen.decode on one-hot assignments (with auxiliary variables and negative literals mixed in, shuffled) and on
+    arbitrary subsets of the design variables (several / no levels per trial) vs SPModel.Decode.decode"""
+    d = ctx.drv()
+    rng = ctx.rng
+    ctx.rules.append("I7d: Gen.decode(block, solution) for one-hot assignments and for arbitrary variable subsets "
+                     "(incl. too few variables of a complex-window factor: IndexError) vs SPModel.Decode.decode, "
+                     "compared exactly per factor and trial")
+    for case in OD.gen_cases(ctx, 8 if not ctx.big() else 60):
+        blk = case.fresh_block()
+        if len({f.name for f in blk.act_design}) != len(list(blk.act_design)):
+            continue
+        req0 = lblock(blk)
+        vps = blk.variables_per_sample()
+        n = blk.trials_per_sample()
+        for mode in ("onehot", "subset", "onehot"):
+            sol = []
+            if mode == "onehot":
+                for t in range(1, n + 1):
+                    for f in blk.act_design:
+                        sc = blk.sustain_count(f)
+                        if f.applies_to_trial((t - 1) // sc + 1):
+                            sol.append(blk._encode_variable(f, rng.choice(list(f.levels)), t))
+                chosen = set(sol)
+                sol += [-v for v in range(1, vps + 1) if v not in chosen]
+                sol += [v if rng.random() < 0.5 else -v for v in range(vps + 1, vps + rng.randint(0, 6))]
+            else:
+                sol = [v if rng.random() < 0.4 else -v for v in range(1, vps + 1)]
+            rng.shuffle(sol)
+            req = {"op": "decode", "factors": req0["factors"], "trials": req0["trials"], "solution": sol}
+            py = py_decode(blk, sol)
+            le = _names(blk, d.ask(req))
+            ctx.count("I7d.decode." + mode)
+            if "err" in py:
+                ctx.count("I7d.err." + py["err"])
+            ctx.case("I7d:" + str(hash(str(req))), nontrivial=vps > 2)
+            if py != le:
+                ctx.corr_break("I7d.decode", req, OD.sample_desc(case), {"python": str(py)[:500], "lean": str(le)[:500]})
+                if len(ctx.corr_breaks) > 3:
+                    return
